@@ -33,15 +33,48 @@ def error_problems(src: str, o: dict):
     return probs
 
 
+_DIRECT_TOKENIZER_USED = False
+
+
+def _use_tokenizer_directly(variant):
+    """Once per worker process: the pegen idiom `Tokenizer(generate_tokens(readline))` on an unrelated snippet, read to the
+    end - what a caller may have done earlier in the process must not show in a later error report."""
+    global _DIRECT_TOKENIZER_USED
+    if _DIRECT_TOKENIZER_USED or variant != "shipped":
+        return
+    _DIRECT_TOKENIZER_USED = True
+    import io
+
+    from peg_parser.tokenize import Token, generate_tokens
+    from peg_parser.tokenizer import Tokenizer
+
+    try:
+        tz = Tokenizer(generate_tokens(io.StringIO("first = 1\nsecond = 2\nthird = (3,\n  4)\nfourth = 5\nfifth = 6\n").readline))
+        while tz.getnext().type != Token.ENDMARKER:
+            pass
+    except Exception:  # noqa: BLE001
+        pass
+
+
 def parse_file_outcome(src: str, variant: str = "shipped"):
-    """The same through parse_file (a temporary UTF-8 file outside /repo, /verif and /tmp)."""
+    """The same through parse_file: a UTF-8 file outside /repo, /verif and /tmp whose PATH is re-used by this worker for every
+    input it gets (a file that is edited and parsed again), after the tokenizer class has been used directly once."""
     import os
     import tempfile
     from pathlib import Path
 
-    fd, name = tempfile.mkstemp(prefix="xv.c11.", suffix=".py", dir="/var/tmp")
+    _use_tokenizer_directly(variant)
+    d = tempfile.gettempdir() if False else "/var/tmp"
+    name = os.path.join(d, f"xv.c11.{os.getpid()}.py")
     try:
-        with os.fdopen(fd, "wb") as f:
+        # the file's previous content, rejected as well (so the replay of one input carries its own history)
+        with open(name, "wb") as f:
+            f.write("".join(f"earlier_content_{i} = (\n" if i == 1 else f"earlier_content_{i} = {i} +\n" for i in range(1, 30)).encode())
+        try:
+            impl.parser_cls(variant).parse_file(Path(name))
+        except BaseException:  # noqa: BLE001
+            pass
+        with open(name, "wb") as f:
             f.write(src.encode("utf-8"))
         try:
             tree = impl.parser_cls(variant).parse_file(Path(name))
@@ -49,7 +82,10 @@ def parse_file_outcome(src: str, variant: str = "shipped"):
             return impl.err_dict(e)
         return {"k": "tree" if tree is not None else "none"}
     finally:
-        os.unlink(name)
+        try:
+            os.unlink(name)
+        except OSError:
+            pass
 
 
 def check_one(src: str, mode: str = "exec", variant: str = "shipped", py_version=None):
